@@ -249,6 +249,8 @@ func checkC07(p *Prog, r *Report) {
 	}
 	r.Check(noPanic(end) && noPanic(bfn) && chainOK, kp("PANIC", "burn.EndBlock#no-explicit-panic"), "processing a block never halts because of the burn: no explicit panic in EndBlock or the burn function", p.FnPos(end),
 		"no panic instruction", "an explicit panic sits in EndBlock or "+FuncName(bfn)+": a failed burn (e.g. locked coins) would halt the chain")
+	checkBurnGenesisIndependentOfBalances(p, r, kp)
+	checkNoPlainAccountAtModuleAddress(p, r, kp)
 	errUsedBad := false
 	if refs := burnCall.Referrers(); refs != nil {
 		for _, u := range *refs {
@@ -734,4 +736,156 @@ func checkBurnAccountBlocked(p *Prog, r *Report, kp func(string, string) string,
 	} else {
 		r.Fail(kp("WIRE", "BlockedAddresses#anchor"), "anchor", "app/app.go", "BlockedAddresses not found")
 	}
+}
+
+
+// isAccountStateRead: a call that reads balances or accounts (what sits at an address — the burn address included).
+func isAccountStateRead(name string) bool {
+	for _, m := range []string{"SpendableCoins", "SpendableCoin", "GetBalance", "GetAllBalances", "LockedCoins", "HasBalance", "GetAccount", "HasAccount", "GetSupply", "HasSupply"} {
+		if strings.HasSuffix(name, "."+m) || strings.HasSuffix(name, ")."+m) {
+			return true
+		}
+	}
+	return false
+}
+
+// checkBurnGenesisIndependentOfBalances: the burn module keeps no state; importing its genesis must not stop the chain because of
+// what sits at some address (a vesting account at the burn address has spendable coins again when an exported chain is restarted
+// later). Over the module functions reachable from x/burn's InitGenesis: no explicit panic stands under a condition, or is raised
+// with a value, computed from a balance or account read.
+func checkBurnGenesisIndependentOfBalances(p *Prog, r *Report, kp func(string, string) string) {
+	var entries []*ssa.Function
+	for _, fn := range p.ModFuncs {
+		if InPkgs(fn, "x/burn") && !p.IsGenerated(fn) && fn.Blocks != nil && fn.Name() == "InitGenesis" {
+			entries = append(entries, fn)
+		}
+	}
+	reach := p.ReachFrom(entries, func(f *ssa.Function) bool { return InModule(f) && !p.IsGenerated(f) })
+	nPanic, bad := 0, 0
+	reads := func(t *Term) bool { return termReadsAccountState(p, t, 0) }
+	for _, fn := range reach.Order {
+		if !InModule(fn) || fn.Blocks == nil {
+			continue
+		}
+		var o *Origin
+		var fa *Facts
+		for _, b := range fn.Blocks {
+			for _, in := range b.Instrs {
+				pn, ok := in.(*ssa.Panic)
+				if !ok {
+					continue
+				}
+				nPanic++
+				if o == nil {
+					o = NewOrigin(p, fn)
+					fa = NewFacts(p, fn, o)
+				}
+				why := ""
+				for _, a := range fa.At(b).Atoms() {
+					if reads(a.Term) {
+						why = "it is raised under the condition " + clip(a.String(), 160)
+					}
+				}
+				if why == "" && reads(o.Of(pn.X)) {
+					why = "its value is computed from " + clip(fmt.Sprint(o.Of(pn.X)), 160)
+				}
+				if why != "" {
+					bad++
+					r.Fail(kp("PANIC", "burn.InitGenesis#balance-dependent-panic@"+FuncName(fn)), "starting the chain never stops because of what sits at an address: no panic of the burn module's genesis import depends on a balance or account read", p.Pos(pn.Pos()),
+						fmt.Sprintf("%s panics during InitChain and %s: a chain whose burn address regains spendable coins between export and restart (a vesting account there) cannot be started again", FuncName(fn), why))
+				}
+			}
+		}
+	}
+	if bad == 0 {
+		r.OK(kp("PANIC", "burn.InitGenesis#balance-dependent-panic#none"), "starting the chain never stops because of what sits at an address: no panic of the burn module's genesis import depends on a balance or account read", "x/burn",
+			fmt.Sprintf("%d InitGenesis entry points, %d module functions reachable, %d explicit panics, none under a balance/account condition", len(entries), len(reach.Order), nPanic))
+	}
+	r.Floor("burn-genesis-entry-points", len(entries), 2)
+}
+
+// checkNoPlainAccountAtModuleAddress: the sweep sends to the burn module account, which the bank creates on first use; an account
+// of another kind stored at a module address beforehand makes that lookup panic inside EndBlock. No module code hands an address
+// computed by NewModuleAddress to the account keeper's account constructors or to SetAccount.
+func checkNoPlainAccountAtModuleAddress(p *Prog, r *Report, kp func(string, string) string) {
+	nSites, bad := 0, 0
+	for _, fn := range p.ModFuncs {
+		if p.IsGenerated(fn) || fn.Blocks == nil || InPkgs(fn, "types/testsuite") || InPkgs(fn, "testutil") {
+			continue
+		}
+		var o *Origin
+		for _, cs := range callSites(fn) {
+			if !(strings.HasSuffix(cs.Name, ").SetAccount") || strings.HasSuffix(cs.Name, ").NewAccountWithAddress") || strings.HasSuffix(cs.Name, ").NewAccount") || strings.HasSuffix(cs.Name, "types.NewBaseAccountWithAddress") || strings.HasSuffix(cs.Name, "types.NewBaseAccount")) {
+				continue
+			}
+			nSites++
+			if o == nil {
+				o = NewOrigin(p, fn)
+			}
+			for _, a := range cs.Instr.Common().Args {
+				t := o.Of(a)
+				if t != nil && t.Contains(func(x *Term) bool { return x.IsCall("types.NewModuleAddress") }) && !t.Contains(func(x *Term) bool {
+					return x.Op == "call" && (strings.Contains(x.Name, "NewEmptyModuleAccount") || strings.Contains(x.Name, "NewModuleAccount"))
+				}) {
+					bad++
+					r.Fail(kp("ORIGIN", "plain-account-at-module-address@"+FuncName(fn)), "no account other than a module account is stored at a module address (the sweep's destination is looked up as a module account inside EndBlock)", p.Pos(cs.Instr.Pos()),
+						fmt.Sprintf("%s hands %s to %s: an ordinary account now sits at a module address, and the first sweep panics in the bank's module-account lookup — the chain halts", FuncName(fn), clip(fmt.Sprint(t), 140), cs.Name))
+					break
+				}
+			}
+		}
+	}
+	if bad == 0 {
+		r.OK(kp("ORIGIN", "plain-account-at-module-address#none"), "no account other than a module account is stored at a module address (the sweep's destination is looked up as a module account inside EndBlock)", "app, x/*",
+			fmt.Sprintf("%d account-constructing call sites in non-test module code, none with an address from NewModuleAddress", nSites))
+	}
+}
+
+
+// termReadsAccountState: the value is computed from a balance or account read — directly, or as the k-th result of a module
+// function whose k-th returned value is.
+func termReadsAccountState(p *Prog, t *Term, depth int) bool {
+	if t == nil || depth > 3 {
+		return false
+	}
+	calleeResult := func(c *Term, k int) (bool, bool) {
+		call, ok := c.Val.(*ssa.Call)
+		if !ok || c.Op != "call" {
+			return false, false
+		}
+		callee := call.Call.StaticCallee()
+		if callee == nil || !InModule(callee) || callee.Blocks == nil {
+			return false, false
+		}
+		o := NewOrigin(p, callee)
+		for _, ret := range returnsOf(callee) {
+			for i, rv := range ret.Results {
+				if (k < 0 || i == k) && termReadsAccountState(p, o.Of(rv), depth+1) {
+					return true, true
+				}
+			}
+		}
+		return false, true
+	}
+	switch {
+	case t.Op == "res" && len(t.Args) == 1 && t.Args[0].Op == "call":
+		k := 0
+		fmt.Sscanf(t.Name, "#%d", &k)
+		if hit, resolved := calleeResult(t.Args[0], k); resolved {
+			return hit
+		}
+	case t.Op == "call":
+		if isAccountStateRead(t.Name) {
+			return true
+		}
+		if hit, resolved := calleeResult(t, -1); resolved && hit {
+			return true
+		}
+	}
+	for _, a := range t.Args {
+		if termReadsAccountState(p, a, depth) {
+			return true
+		}
+	}
+	return false
 }
